@@ -35,6 +35,7 @@ VARIABLES slot,   \* 0 = Test holds no executor, else the run number
 vars == <<slot, reg, hnd, st, cur, cbi, cbs, nruns, refused, hist>>
 
 OutcomeOf(p) == CASE p = "pass" -> "PASS" [] p = "fail" -> "FAIL" [] p = "stop" -> "FAIL"
+                  [] p = "fail_unset" -> "FAIL"     \* a dimensioned measurement left unset fails its phase
                   [] p = "error" -> "ERROR" [] p = "start_terminal" -> "ERROR"
                   [] p = "plug_fail" -> "ERROR" [] p = "timeout" -> "TIMEOUT"
                   [] p = "abort" -> "ABORTED" [] p = "sigint" -> "ABORTED"
